@@ -18,4 +18,5 @@ PROPERTY HandleUnusableAfterFinish
 PROPERTY RefinesEmbedded
 PROPERTY ReadOnlyRejectsMutators
 PROPERTY NodeInfoTruthful
+PROPERTY StopKeepsMode
 CHECK_DEADLOCK FALSE
